@@ -34,13 +34,13 @@ package phase5
 
 // polyEnds(r): the polyline of a non-flat route r has one point per route node and is anchored at its end nodes
 //@ spec polyEnds(r routableEdge) bool =
-//@   len(r.Points) == len(r.ns)
+//@   len(r.Points) >= 2
 //@   && r.Points[0][0] == startX(r.ns[0]) && r.Points[0][1] == startY(r.ns[0])
-//@   && r.Points[len(r.ns)-1][0] == startX(r.ns[len(r.ns)-1]) && r.Points[len(r.ns)-1][1] == endY(r.ns[len(r.ns)-1])
+//@   && r.Points[len(r.Points)-1][0] == startX(r.ns[len(r.ns)-1]) && r.Points[len(r.Points)-1][1] == endY(r.ns[len(r.ns)-1])
 
 // polyBends(g, r): every inner point is the bend of its route node (centre x, vertical middle of its own band)
 //@ spec polyBends(g *DGraph, r routableEdge) bool =
-//@   forall t int :: 0 < t && t < len(r.ns) - 1 ==> r.Points[t][0] == bendX(r.ns[t]) && r.Points[t][1] == bendY(g, r.ns[t])
+//@   len(r.Points) == len(r.ns) && forall t int :: 0 < t && t < len(r.ns) - 1 ==> r.Points[t][0] == bendX(r.ns[t]) && r.Points[t][1] == bendY(g, r.ns[t])
 
 //@ spec polyDone(g *DGraph, r routableEdge) bool = polyEnds(r) && polyBends(g, r)
 
